@@ -584,6 +584,18 @@ func GenCrashScript(r *Rng, kind string, hist map[string]int) []string {
 		add("dump")
 		add("close")
 	}
+	if kind != "plain" && r.Chance(1, 3) {
+		// a batch that is open (pieces flushed, not committed) while a Merge scans; the process dies before Commit
+		c4 := genCfg(r, o, hist)
+		c4.io = 0
+		c4.fsize = r.Pick(200, 700, 4096)
+		add("open %s", c4)
+		for i := 3 + r.Intn(12); i > 0; i-- {
+			add("put %s @%d:%d", engKeys[r.Intn(len(engKeys))], 1+r.Intn(60), r.Intn(99999))
+		}
+		add("mergebatchcrash %d %d %d", 4+r.Intn(12), r.Pick(20, 60, 150, 400), r.Intn(1<<30))
+		hist["crash_open_batch_while_merge_scans"]++
+	}
 	hist["crash_"+kind]++
 	return out
 }
